@@ -52,8 +52,9 @@ def instantiate(row, rng, n):
             b = rng.choice(MAGS) * rng.choice([1, -1])
             co = {"a": a, "b": b}
         elif conv.startswith("RATLIN"):
-            f = rng.choice(MAGS)
-            b = rng.choice(MAGS) * (1 if conv == "RATLIN_POS" else -1)
+            # the slope of the inverse is f / b: both sign combinations of (f, b) occur
+            f = rng.choice(MAGS) * rng.choice([1, -1])
+            b = rng.choice(MAGS) * (1 if conv == "RATLIN_POS" else -1) * (1 if f > 0 else -1)
             c = rng.choice(MAGS) * rng.choice([1, -1, 0])
             co = {"a": F(0), "b": b, "c": c, "d": F(0), "e": F(0), "f": f}
         elif conv == "RATGEN":
@@ -136,6 +137,18 @@ def document(row, co, lower, upper):
     elif k == "AXIS_PTS":
         body += (f' /begin RECORD_LAYOUT rl AXIS_PTS_X 1 {dt} INDEX_INCR DIRECT /end RECORD_LAYOUT'
                  f' /begin AXIS_PTS e1 "" 0x0 NO_INPUT_QUANTITY rl 0 {cmname} 2 {lo} {hi} /end AXIS_PTS')
+    elif k in ("AXIS_DESCR_2", "AXIS_DESCR_3"):
+        # the standard axis is the 2nd / 3rd axis; the axes before it are FIX_AXIS; the record layout
+        # describes the other positions with a different data type
+        n = int(k[-1])
+        other = "SBYTE" if dt == "UBYTE" else "UBYTE"
+        names = ["X", "Y", "Z"]
+        rl = " ".join(f"AXIS_PTS_{names[j]} {j + 2} {dt if j == n - 1 else other} INDEX_INCR DIRECT" for j in range(3))
+        fix = " ".join("/begin AXIS_DESCR FIX_AXIS NO_INPUT_QUANTITY NO_COMPU_METHOD 2 0 10 FIX_AXIS_PAR 0 1 2 /end AXIS_DESCR" for _ in range(n - 1))
+        ctype = {2: "MAP", 3: "CUBOID"}[n]
+        body += (f' /begin RECORD_LAYOUT rl FNC_VALUES 1 UBYTE ROW_DIR DIRECT {rl} /end RECORD_LAYOUT'
+                 f' /begin CHARACTERISTIC e1 "" {ctype} 0x0 rl 0 NO_COMPU_METHOD 0 255 {fix}'
+                 f' /begin AXIS_DESCR STD_AXIS NO_INPUT_QUANTITY {cmname} 2 {lo} {hi} /end AXIS_DESCR /end CHARACTERISTIC')
     else:   # standard-axis AXIS_DESCR
         body += (f' /begin RECORD_LAYOUT rl FNC_VALUES 1 UBYTE ROW_DIR DIRECT AXIS_PTS_X 2 {dt} INDEX_INCR DIRECT /end RECORD_LAYOUT'
                  f' /begin CHARACTERISTIC e1 "" CURVE 0x0 rl 0 NO_COMPU_METHOD 0 255'
@@ -144,7 +157,7 @@ def document(row, co, lower, upper):
 
 
 def reported(result, row):
-    want_block = "AXIS_DESCR" if row["kind"] == "AXIS_DESCR" else row["kind"]
+    want_block = "AXIS_DESCR" if row["kind"].startswith("AXIS_DESCR") else row["kind"]
     for c in result["snaps"][1].get("check", []):
         if c["class"] == "LimitCheckError" and c.get("item_name") == "e1" and c.get("blockname") == want_block:
             return True
@@ -160,8 +173,8 @@ def run(tier, selftest):
     if res.violation:
         rep.violation(f"limits-spec:{res.violation}", "TLC: the decision table of Limits.tla is not well formed", {"kind": "tlc"})
     rows = list(res.prints("CASE"))
-    if len(rows) != 5 * 11 * 12 * 4:
-        vlib.tool_error(f"decision table has {len(rows)} rows, expected 2640")
+    if len(rows) != 7 * 11 * 12 * 4:
+        vlib.tool_error(f"decision table has {len(rows)} rows, expected 3696")
     rng = random.Random(vlib.seed() * 31337 + 12)
     per_row = 6 if thorough else 2
     cases, mo = [], []
